@@ -19,7 +19,8 @@ func init() {
 			"(R2) every consumer of a result error in package gohbase (type switch / comma-ok assertion on an error naming a class) handles the classes its table entry requires: SendRPC, waitForCompletion and isRegionEstablished all of them, handleResultError the two that need a reaction, with SendRPC's class cases leading back to the retry loop and its default returning the same error value unchanged - so a fourth class makes every consumer non-exhaustive; " +
 			"(R3) every result error received from a call's result channel reaches handleResultError with the region of the same call and the connection it was queued on (the establisher's probe is the tabled exception); " +
 			"(R4) the reaction: NotServingRegionError marks that region, ServerError calls clientDown(rc, reg) unless the admin region; " +
-			"(R5) TableNotFound is returned by the lookup loops without backing off or looping.",
+			"(R5) TableNotFound is returned by the lookup loops without backing off or looping." +
+			" Added after the seeded-change rounds: (R3) the error handed back by trySend reaches the call unchanged (shared with C03.R3); (R4) a looked-up region is marked unavailable before it is published in the cache (shared with C09.R3).",
 		Residue:   "eventual success once the cluster is stable (liveness over fault sequences)",
 		Technique: "table extraction from the package initialiser, class-exhaustiveness over type switches/assertions (SSA), provenance and dominance checks",
 		Run:       runC04,
